@@ -42,7 +42,7 @@ func (j genJob) cfg(shard int) string {
 		j.b, runeConsts, tf(j.wide), j.mode, j.sp, j.fam, j.parts, j.maxTop, j.maxTotal, j.maxD, tf(j.notdef), shard, j.shards)
 }
 
-var fams = []string{"cid", "tu1", "tuEdge", "tuMix"}
+var fams = []string{"cid", "tu1", "tuEdge", "tuMix", "tuPrefix"}
 
 func genJobs(ctx *core.Ctx) []genJob {
 	var jobs []genJob
